@@ -117,6 +117,41 @@ def deep_cases(rng):
     return out
 
 
+def size_boundary_cases(rng):
+    """lengths and counts at every width boundary of their var-int prefix (zig-zag counts: 63/64, 8191/8192,
+    1048575/1048576; unsigned byte lengths: 127/128, 16383/16384, 2097151/2097152). Returns (modelled, implementation
+    only): the extracted model reads lists quadratically, so inputs beyond a few hundred elements are judged on the implementation alone."""
+    small, big = [], []
+    for n in (63, 64, 65, 8191, 8192, 8193, 1048575, 1048576, 1048577):
+        tgt = small if n < 200 else big
+        tgt.append(R.mk(None, G.P("str"), "b" + ("61" * n), "00"))
+        if n < 20000:
+            tgt.append(R.mk(None, ("seq", "vec", 0, G.P("u16")), "(0" + " n513" * n + ")", "-"))
+            tgt.append(R.mk(None, ("seq", "ll", 0, G.P("bool")), "(0" + " n1" * n + ")", "-"))
+            tgt.append(R.mk(None, ("map", "bmap", G.P("u32"), G.P("u8")),
+                            "(0" + "".join(f" (0 n{i} n{i % 256})" for i in range(n)) + ")", "-"))
+    for n in (127, 128, 129, 16383, 16384, 16385, 2097151, 2097152, 2097153):
+        tgt = small if n < 200 else big
+        tgt.append(R.mk(None, ("seq", "vec", 0, G.P("u8")), "b" + ("ab" * n), "00"))
+        tgt.append(R.mk(None, G.P("bytes"), "b" + ("cd" * n), "-"))
+        if n < 20000:
+            big.append(R.mk(None, G.P("bigint"), "z" + str((1 << (8 * n - 2)) + 12345), "-"))   # (the model's be_bytes is cubic)
+    return small, big
+
+
+def big_stream(rep, harness, wd, big):
+    lines = [C.codec_line(c) for c in big]
+    impl = C._run_codec_side(harness, big, lines, wd, "big", 8, 3000)
+    bad = [(c, a, R.judge_rt(c, a)[1]) for c, a in zip(big, impl) if not R.judge_rt(c, a)[0]]
+    rep.coverage["size_boundary_cases_implementation_only"] = len(big)
+    rep.coverage["evaluations"] = rep.coverage.get("evaluations", 0) + len(big)
+    if bad:
+        c, a, why = bad[0]
+        rep.violation(f"{why}: {C.codec_line(c)[:120]} ... ({len(c['val']) // 2} bytes)",
+                      {"kind": "case", "case": C.codec_line(c)[:2000] + "...", "implementation": a[:300], "why": why,
+                       "n_failing": len(bad)})
+
+
 def tz_list_check(rep, harness):
     """coq/TzNames.v (the model's oracle for Tz::from_str) against the chrono-tz linked into the implementation"""
     have = C.run([harness, "tznames"], timeout=120).stdout.split()
@@ -131,7 +166,8 @@ def tz_list_check(rep, harness):
 
 def check(rep, tier, seed):
     rng = C.rng_for(seed, "C01")
-    cases = R.builtin_cases(rng, tier) + deep_cases(rng)
+    small, big = size_boundary_cases(rng)
+    cases = R.builtin_cases(rng, tier) + deep_cases(rng) + small
     rep.coverage["rule"] = (
         "every type constructor applied to every modelled primitive (exhaustive shallow layer, every tuple arity "
         "1-8, every compiled array length), random type expressions to depth 5; values from per-primitive boundary "
@@ -139,7 +175,8 @@ def check(rep, tier, seed):
         "element containers; chrono: both ends of the year and timestamp ranges, leap days and leap seconds, every "
         "var-int width of year / nanosecond / offset, all 596 zone names); each encoded and decoded with a suffix "
         "through the public entry points (dynamic route: the library's generic impls instantiated at a run-time "
-        "typed value); 14 type expressions nested 150 and 400 levels deep; non-trivial = distinct case lines; BigDecimal: "
+        "typed value); 14 type expressions nested 150 and 400 levels deep; strings, vectors, lists, maps, byte arrays and big "
+        "integers at every width boundary of their length prefix up to 2^21; non-trivial = distinct case lines; BigDecimal: "
         "implementation-only stream")
     R.run_and_judge(rep, "C01", "C01", cases, tier, seed,
                     extra_trusted=["chrono's calendar (valid dates/times/offsets/timestamps) and chrono-tz's name table are "
@@ -149,6 +186,7 @@ def check(rep, tier, seed):
                                    "not modelled: BigDecimal's decimal text (bigdecimal crate); its stream is judged on the "
                                    "implementation alone"])
     harness = C.build_harness("release")
+    big_stream(rep, harness, C.workdir("C01big"), big)
     bigdecimal_stream(rep, tier, seed, harness, C.workdir("C01bd"))
     mono_stream(rep, tier, seed, harness, C.build_model(), C.workdir("C01mono"))
     tz_list_check(rep, harness)
